@@ -828,6 +828,61 @@ fn case<S: ShortGroupSignatureScheme>(v: &Value) -> Value {
             json!({"r":"ok","world":"ok","create":"ok","verify":base,"verify2":verdict(&p2, &w.schema, if same_nonce { &w.nonce } else { &nonce2 }),"links":links,
                    "n_leaves": l1.len(), "n_g2": q_paths.len(), "ratio_hits_same": n_ratio})
         }
+        "valuedep" => {
+            // C07: is a transmitted element of the hidden part a function of the hidden claim VALUES alone?  P1 from the
+            // credentials, Pb from freshly issued credentials over the same claim vectors (new signatures), Pc from
+            // credentials over other claim vectors - all under the same schema and the same verifier nonce.  A leaf that is
+            // equal in P1 and Pb and differs in Pc can be tested against candidate values by anyone.
+            use serde_cbor::Value as CV;
+            fn cl(v: &CV, path: &mut Vec<String>, out: &mut Vec<(String, Vec<u8>)>) {
+                match v {
+                    CV::Array(a) => {
+                        let bytes: Option<Vec<u8>> = a.iter().map(|x| if let CV::Integer(i) = x { if (0..256).contains(i) { Some(*i as u8) } else { None } } else { None }).collect();
+                        match bytes {
+                            Some(b) if b.len() == 32 || b.len() == 48 || b.len() == 96 => out.push((path.join("/"), b)),
+                            _ => for (i, x) in a.iter().enumerate() { path.push(i.to_string()); cl(x, path, out); path.pop(); }
+                        }
+                    }
+                    CV::Map(m) => for (k, x) in m.iter() {
+                        let ks = match k { CV::Text(t) => t.clone(), other => format!("{other:?}") };
+                        if ks == "disclosed_messages" { continue; }
+                        path.push(ks); cl(x, path, out); path.pop();
+                    },
+                    _ => {}
+                }
+            }
+            let alt = &v["action"]["alt"];
+            let mut creds_b = w.credentials.clone();
+            let mut creds_c = w.credentials.clone();
+            let mut issuers = w.issuers;
+            for (sid, ci) in w.sig_cred.iter() {
+                let b = match issuers[w.cred_issuer[*ci]].1.sign_credential(&w.claims[*ci]) { Ok(b) => b, Err(e) => return json!({"r":"ok","resign":format!("{e:?}")}) };
+                creds_b.insert(sid.clone(), b.credential.into());
+                if let Some(aci) = alt[sid].as_u64() {
+                    let aci = aci as usize;
+                    let c = issuers[w.cred_issuer[aci]].1.sign_credential(&w.claims[aci]).expect("re-sign");
+                    creds_c.insert(sid.clone(), c.credential.into());
+                }
+            }
+            let pb = match Presentation::create(&creds_b, &w.schema, &w.nonce) { Ok(x) => x, Err(e) => return json!({"r":"ok","createb":format!("{e:?}")}) };
+            let pc = match Presentation::create(&creds_c, &w.schema, &w.nonce) { Ok(x) => x, Err(e) => return json!({"r":"ok","createc":format!("{e:?}")}) };
+            let leaves_of = |q: &Presentation<S>| -> Vec<(String, Vec<u8>)> {
+                let t = serde_cbor::value::to_value(q).unwrap();
+                let mut o = vec![];
+                cl(&t, &mut vec![], &mut o);
+                o
+            };
+            let (l1, lb, lc) = (leaves_of(&p), leaves_of(&pb), leaves_of(&pc));
+            let mut hits = vec![];
+            for (path, b1) in l1.iter() {
+                let e1b = lb.iter().any(|(p2, b2)| p2 == path && b2 == b1);
+                let e1c = lc.iter().any(|(p3, b3)| p3 == path && b3 == b1);
+                if e1b && !e1c {
+                    hits.push(json!({"test": "leaf determined by the hidden claim values", "path": path}));
+                }
+            }
+            json!({"r":"ok","world":"ok","create":"ok","verify":base,"verifyb":verdict(&pb, &w.schema, &w.nonce),"valuedep":hits,"n_leaves": l1.len()})
+        }
         "decrypt" => {
             // C10: what the key holder recovers from an accepted presentation
             let mut out = vec![];
